@@ -24,7 +24,9 @@ fn keys_v(rng: &mut Rng, min: usize) -> Value {
   if n == 1 && rng.chance(1, 2) { return key(rng); }
   Value::Array((0..n).map(|_| key(rng)).collect())
 }
+fn deep(n: usize) -> Value { let mut v = json!("A"); for _ in 0..n { v = json!([v]); } v }
 fn junk(rng: &mut Rng) -> Value {
+  if rng.chance(1, 12) { return match rng.below(4) { 0 => deep(10), 1 => deep(200), 2 => json!("x".repeat(3000)), _ => json!({"from": {"from": {"from": "A"}}}) }; }
   match rng.below(11) { 0 => Value::Null, 1 => json!(true), 2 => json!(-1), 3 => json!(1e300), 4 => json!(18446744073709551615u64), 5 => json!([]), 6 => json!({}), 7 => json!([[["A"]]]), 8 => json!({"row": 5}), 9 => json!(-9223372036854775808i64), _ => json!("") }
 }
 fn number(rng: &mut Rng) -> Value {
@@ -226,6 +228,13 @@ impl StoreCampaign {
       6 => { if bytes.len() > 4 { let i = rng.below(bytes.len() - 2); let j = i + 1 + rng.below(bytes.len() - i - 1); bytes.drain(i..j); faults[3] += 1; } }
       7 => { if bytes.len() > 8 { let bs = 1 + rng.below(bytes.len() / 4); let i = rng.below(bytes.len() - 2 * bs + 1); let (a, b) = (bytes[i..i + bs].to_vec(), bytes[i + bs..i + 2 * bs].to_vec()); bytes[i..i + bs].copy_from_slice(&b); bytes[i + bs..i + 2 * bs].copy_from_slice(&a); faults[4] += 1; } }
       8 => { let g: &[u8] = match rng.below(4) { 0 => b"\0\0\0\0", 1 => b"}]garbage", 2 => b"\n\n{\"mappings\": []}", _ => b"\xff\xfe" }; bytes.extend_from_slice(g); faults[5] += 1; }
+      12 => { // the editor saved with a byte-order mark / as UTF-16
+        if rng.chance(1, 2) { let mut b = vec![0xEFu8, 0xBB, 0xBF]; b.extend_from_slice(&bytes); bytes = b; } else { let mut b = vec![0xFFu8, 0xFE]; for x in &bytes { b.push(*x); b.push(0); } bytes = b; }
+        faults[9] += 1;
+      }
+      13 => { // an object key written twice (later write wins in serde_json::Value)
+        if let Ok(text) = std::str::from_utf8(&bytes) { if let Some(i) = text.find("\"from\"") { let ins = if rng.chance(1, 2) { "\"from\": [\"A\", \"A\"], " } else { "\"to\": 7, " }; let mut t = text.to_string(); t.insert_str(i, ins); bytes = t.into_bytes(); faults[2] += 1; } }
+      }
       9 => { if rng.chance(1, 2) { bytes.clear(); faults[6] += 1; } else { let n = rng.below(bytes.len() + 1); for b in &mut bytes[n..] { *b = 0; } faults[7] += 1; } }
       10 => { path = match rng.below(3) { 0 => PathKind::Missing, 1 => PathKind::Directory, _ => PathKind::Unreadable }; faults[8] += 1; }
       11 => { if !bytes.is_empty() { let i = rng.below(bytes.len()); bytes[i] = [0x80u8, 0xff, 0xc0, 0xed][rng.below(4)]; faults[9] += 1; } }
